@@ -114,12 +114,25 @@ theorem C10_softstop_acks_once (base slab : Nat) (ops : List Op) :
     w.acks.length ≤ 1 ∧ (w.exited = true ↔ w.acks.length = 1) := by
   first | exact c10_softstop_acks_once | (apply c10_softstop_acks_once <;> assumption)
 
-/-- **The accounting survives every history**, hand-over included: from a fresh
-    worker, after any sequence of operations (listeners added, removed, handed
-    back with `ReturnListenSockets`, connections, ticks, stops) the slab still is
-    the base plus the client sessions. -/
-theorem C10_accounting_invariant (b : Nat) (ops : List Op) : Acc (run (W.fresh b) ops) := by
-  first | exact c10_accounting_invariant | (apply c10_accounting_invariant <;> assumption)
+/-- **The accounting survives every history without `DeactivateListener`**,
+    hand-over included: from a fresh worker, after any sequence of the other
+    operations (listeners added, removed, handed back with `ReturnListenSockets`,
+    connections, ticks, stops) the slab still is the base plus the client
+    sessions. -/
+theorem C10_accounting_invariant_partial (b : Nat) (ops : List Op)
+    (hd : ∀ o ∈ ops, o ≠ Op.deactivateListener) : Acc (run (W.fresh b) ops) :=
+  c10_accounting_invariant_partial b ops hd
+
+/-- **The excluded operation (open finding).** `DeactivateListener` removes the
+    listener's slab entry but leaves `base_sessions_count` alone: after two of
+    them a SoftStop is acknowledged at once although a request (its frontend and
+    backend entries) is still in flight. Reproduced on a real worker by the
+    handover run (class `softstop-ack-before-drain:after-deactivate-listener`). -/
+theorem C10_accounting_counterexample_deactivate :
+    let w := run (W.fresh 1) [.addListener, .addListener, .connect, .connect,
+                               .deactivateListener, .deactivateListener, .softStop 9]
+    w.sessions = 2 ∧ ¬ Acc w ∧ (step w (.tick 0)).2 = .ack 9 :=
+  c10_accounting_counterexample_deactivate
 
 /-- **Hand-over, then stop: the stop waits for the sessions and for nothing
     else.** In any history of a worker — whatever listeners were added, removed
@@ -127,11 +140,12 @@ theorem C10_accounting_invariant (b : Nat) (ops : List Op) : Acc (run (W.fresh b
     tick acknowledges the stop exactly when the worker is stopping and every
     client session has ended on that tick; in particular never while a session
     is left, and always once none is. -/
-theorem C10_handover_then_stop_waits_for_sessions (b : Nat) (ops : List Op) (closed : Nat) :
+theorem C10_handover_then_stop_waits_for_sessions_partial (b : Nat) (ops : List Op) (closed : Nat)
+    (hd : ∀ o ∈ ops, o ≠ Op.deactivateListener) :
     let w := run (W.fresh b) ops
     (∃ id, (step w (.tick closed)).2 = .ack id) ↔
       (w.exited = false ∧ w.shutting.isSome = true ∧ w.sessions ≤ closed) := by
-  first | exact c10_handover_then_stop_waits_for_sessions | (apply c10_handover_then_stop_waits_for_sessions <;> assumption)
+  exact c10_handover_then_stop_waits_for_sessions_partial b ops closed hd
 
 example :
     let w := run (W.fresh 3) [.addListener, .addListener, .connect, .connect, .returnListeners, .softStop 9, .tick 1]
